@@ -246,6 +246,25 @@ def mkpe(ptr_raw, size_raw, total):
     return d + b"\0" * (total - len(d)) if total > len(d) else d
 
 
+def mkpe_sections(sections, total=None):
+    """A minimal PE image with several sections, given as (pointer to raw data, size of raw data) in SECTION-TABLE order (which need not be file order)."""
+    import struct
+
+    dos = bytearray(0x40)
+    dos[0:2] = b"MZ"
+    struct.pack_into("<I", dos, 0x3C, 0x40)
+    coff = struct.pack("<4sHHIIIHH", b"PE\0\0", 0x14C, len(sections), 0, 0, 0, 0xE0, 0x102)
+    opt = bytearray(0xE0)
+    struct.pack_into("<H", opt, 0, 0x10B)
+    struct.pack_into("<I", opt, 0x20, 0x1000)
+    struct.pack_into("<I", opt, 0x24, 0x200)
+    struct.pack_into("<I", opt, 0x5C, 16)
+    table = b"".join(struct.pack("<8sIIIIIIHHI", b".s%d" % k, 0x1000, 0x1000 * (k + 1), size, ptr, 0, 0, 0, 0, 0x60000020) for k, (ptr, size) in enumerate(sections))
+    d = bytes(dos) + coff + bytes(opt) + table
+    end = max(ptr + size for ptr, size in sections) if total is None else total
+    return d + b"\0" * (end - len(d)) if end > len(d) else d
+
+
 def corpus(tier, seed):
     """Inputs for the decoder stand-ins: members of every real pattern (embedded), hand-picked edge cases, random bytes."""
     rng = random.Random(seed)
